@@ -20,25 +20,49 @@ def ncpu():
         return os.cpu_count() or 1
 
 
-def _call(fn, item):
+class ItemTimeout(BaseException):
+    pass
+
+
+def _alarm(signum, frame):
+    raise ItemTimeout()
+
+
+def _call(fn, item, item_timeout=None):
+    import signal
+
+    if item_timeout:
+        signal.signal(signal.SIGALRM, _alarm)
+        signal.alarm(int(item_timeout))
     try:
         return ("ok", fn(item))
+    except ItemTimeout:
+        # a hung case (e.g. a worker pool that lost its children) is inconclusive, never a verdict
+        for ch in mp.active_children():
+            try:
+                ch.kill()
+            except Exception:
+                pass
+        return ("timeout", f"no result within {item_timeout}s")
     except BaseException as e:  # reported to the parent, which decides
         return ("error", f"{type(e).__name__}: {e}\n{traceback.format_exc()[-1500:]}")
+    finally:
+        if item_timeout:
+            signal.alarm(0)
 
 
-def pmap(fn, items, workers=None, timeout=None, chunk=1):
+def pmap(fn, items, workers=None, timeout=None, chunk=1, item_timeout=None):
     items = list(items)
     workers = min(workers or ncpu(), max(1, len(items)))
     if workers <= 1 or len(items) <= 1:
         for it in items:
-            st, val = _call(fn, it)
+            st, val = _call(fn, it, item_timeout)
             yield it, st, val
         return
     ctx = mp.get_context("fork")
     ex = cf.ProcessPoolExecutor(max_workers=workers, mp_context=ctx)
     try:
-        futs = {ex.submit(_call, fn, it): it for it in items}
+        futs = {ex.submit(_call, fn, it, item_timeout): it for it in items}
         try:
             for f in cf.as_completed(futs, timeout=timeout):
                 it = futs.pop(f)
